@@ -1,5 +1,6 @@
 import Crusta.Proofs.Writers
 import Crusta.Proofs.RoundTrip
+import Crusta.Proofs.StoreRoundTrip
 
 /-! # C14 — written frameworks and answers read back (property theorems) -/
 
@@ -51,5 +52,44 @@ theorem reader_labels_are_valid (l lab : Str) (h : matchArg l = some lab) : Vali
 
 /-- UTF-8 encoding and decoding are inverse on scalar values (labels may contain non-ASCII digits) -/
 theorem utf8_roundtrip (s : Str) (h : ∀ c ∈ s, Scalar c) : decodeUtf8 (encodeUtf8 s) = some s := decode_encode s h
+
+/-- **whatever update history produced it**: for every list of update operations (accepted,
+rejected, redundant; arguments and attacks removed and re-added), writing the framework the store
+holds in Aspartix format — live arguments in id order, live attacks in iteration order, labels named
+by any injective naming into valid identifiers — and reading the text back gives the same labels
+in the same order and the same attacks in the same order (as positions in the label list) -/
+theorem store_framework_roundtrip (ops : List StoreOp)
+    (nameOf : Nat → Str) (hinj : ∀ a b, nameOf a = nameOf b → a = b) (hval : ∀ l, ValidId (nameOf l)) :
+    let s := ops.foldl (fun s o => match s.step o with | .ok s' => s' | .err s' => s' | .panic => s) Store.empty
+    let labels := s.liveArgs.map (fun p => nameOf p.2)
+    let lab := fun i => nameOf ((s.labelOf i).getD 0)
+    let atts := s.iterAttacks.map (fun p => (lab p.1, lab p.2))
+    ∃ attIdx : List (Nat × Nat),
+      readApx (encodeUtf8 (writeApx labels atts)) = .ok ⟨labels, attIdx⟩ ∧
+      attIdx.length = s.iterAttacks.length ∧
+      (∀ k (hk : k < attIdx.length),
+         ∃ a b, s.iterAttacks[k]? = some (a, b) ∧
+           (s.liveArgs.map (·.1))[(attIdx[k]).1]? = some a ∧ (s.liveArgs.map (·.1))[(attIdx[k]).2]? = some b) :=
+  store_write_read_fold ops nameOf hinj hval
+
+/-- instance used by the correspondence runs: labels `a<n>` -/
+theorem store_framework_roundtrip_default (ops : List StoreOp) :
+    let nameOf := fun l : Nat => strOf "a" ++ natToStr l
+    let s := ops.foldl (fun s o => match s.step o with | .ok s' => s' | .err s' => s' | .panic => s) Store.empty
+    let labels := s.liveArgs.map (fun p => nameOf p.2)
+    let lab := fun i => nameOf ((s.labelOf i).getD 0)
+    let atts := s.iterAttacks.map (fun p => (lab p.1, lab p.2))
+    readApx (encodeUtf8 (writeApx labels atts)) =
+      .ok ⟨labels, atts.map (fun p => ((idxOf labels p.1).getD 9999, (idxOf labels p.2).getD 9999))⟩ :=
+  store_write_read_driver_default ops
+
+/-- the restriction to valid identifiers in the property is needed: a framework over `usize` labels
+written as bare numerals is rejected by the Aspartix reader (numerals are not identifiers) -/
+theorem numeral_labels_do_not_read_back (s : Store) (hne : s.liveArgs ≠ []) :
+    let labels := s.liveArgs.map (fun p => natToStr p.2)
+    let lab := fun i => natToStr ((s.labelOf i).getD 0)
+    let atts := s.iterAttacks.map (fun p => (lab p.1, lab p.2))
+    readApx (encodeUtf8 (writeApx labels atts)) = .error "syntax error" :=
+  store_write_read_usize_rejected s hne
 
 end Crusta.C14
